@@ -202,7 +202,7 @@ func runC03(r *Run) {
 		bin *refBin
 	}
 	var out []held
-	n := 20 + t.Intn(120, "ops")
+	n := 20 + t.Intn(scale(120, 500), "ops")
 	refusedOrBorrowed, dynamic := false, false
 	compare := func(i int, what string) bool {
 		if got := sutBusy(sut); got != g.busy {
